@@ -149,6 +149,9 @@ class BaseNode(Node):
             self.set_value(node.value_raw)
         # copy value type modify values and units
         value = self.value.copy()
+        if node.keyword=='mod' and node.value_slice:
+            # `name = {ref}[slice]`: the node that is modified knows the datatype, so it cuts the injected value
+            self.value_slice = node.value_slice
         value.value = self.cast_value(node.value_raw)
         if isinstance(value, (IntegerType, FloatType)):
             if node.units_raw and not self.units_raw:
